@@ -89,6 +89,7 @@ class PubSubModel:
         self.anomalies: List[str] = []
         self.mgr_name = mgr_name
         self.states_seen = set()
+        self.hist: Dict[int, list] = {}      # conn -> [(seq, alive, subs, mod_id, is_logger)] in seq order
 
     # -------------------------------------------------------------------------------
     def live(self):
@@ -115,11 +116,28 @@ class PubSubModel:
                     decision = DONT_CARE if decision != MUST_REFUSE else decision
         return decision
 
+    def _snap(self, m: MConn, seq):
+        self.hist.setdefault(m.conn, []).append((seq, m.alive, frozenset(m.subs), m.mod_id, m.is_logger))
+
+    def state_at(self, conn, seq):
+        """(alive, subs, mod_id, is_logger) of a connection as the manager saw it just before `seq`"""
+        h = self.hist.get(conn)
+        if not h:
+            return None
+        best = None
+        for rec in h:
+            if rec[0] < seq:
+                best = rec
+            else:
+                break
+        return best[1:] if best is not None else None
+
     def _remove(self, m: MConn, seq, how):
         if m.alive:
             m.alive = False
             m.removed_seq = seq
             m.removed_how = how
+            self._snap(m, seq)
 
     # -------------------------------------------------------------------------------
     def run(self):
@@ -152,6 +170,7 @@ class PubSubModel:
                 sock = net.mgr_socks.get(obj)
                 port = sock.peer.port if sock is not None and sock.peer is not None else 0
                 self.conns[obj] = MConn(obj, seq, port)
+                self._snap(self.conns[obj], seq)
                 continue
             if kind == "end":
                 conn, how = obj
@@ -229,6 +248,8 @@ class PubSubModel:
                 if not m.connected:
                     m.early = True
                 self._deliver(m, fr, next_read)
+            if m.alive:
+                self._snap(m, fr.done_seq)
             self.states_seen.add(self._state_sig())
 
     def _loggers(self, c: Control, sender: MConn):
